@@ -236,8 +236,10 @@ func init() {
 				switch {
 				case lsnVal == nil:
 					r.Fail(f.Name()+":carry-latestSeqNum:"+tag, cl.Pos(), nil, "a %s segment's data is carried into the next writer without its latestSeqNum (it becomes 0): the next Truncate treats the segment as flushed and drops entries that are only in memory", tag)
-				case fromActive && !(exprUsesField(info, lsnVal, lsnW) || (exprUsesField(info, lsnVal, lsnSeg) && exprUsesField(info, lsnVal, active))):
-					r.Fail(f.Name()+":carry-latestSeqNum:"+tag, cl.Pos(), nil, "the active segment must be carried with the writer's latestSeqNum")
+				case fromActive && prog.SelField(info, lsnVal) != lsnW:
+					// activeBuffer.latestSeqNum is only stamped by Cut; for the still-active
+					// segment it is 0, so only the writer's own watermark is right here
+					r.Fail(f.Name()+":carry-latestSeqNum:"+tag, cl.Pos(), nil, "the active segment must be carried with the WRITER's latestSeqNum (w.latestSeqNum); the active segment's own field is only stamped by Cut and is still 0, so the next Truncate would drop its unflushed entries")
 				case !fromActive && !exprUsesField(info, lsnVal, lsnSeg):
 					r.Fail(f.Name()+":carry-latestSeqNum:"+tag, cl.Pos(), nil, "a sealed segment must be carried with its own latestSeqNum")
 				}
